@@ -172,6 +172,13 @@ pub(crate) fn is_reverse(ts: &TimeScale) -> bool {
     ts.reverse
 }
 
+impl TimeScale {
+    /// Read access for the macro-equivalence harnesses (verification only).
+    pub fn verif_same(&self, o: &TimeScale) -> bool {
+        self.delay == o.delay && self.duration == o.duration && self.repeat == o.repeat && self.reverse == o.reverse
+    }
+}
+
 /// C10: "first forward pass" = no later cycle has begun and the cycle is not on its falling
 /// half; `None` exactly at the peak of a reversing cycle, where both readings give 100%.
 pub(crate) fn spec_first_forward_pass(ts: &TimeScale, time: f32) -> Option<bool> {
